@@ -1,5 +1,5 @@
 SPECIFICATION Spec
 CONSTANTS MaxLen = 3
-  Sizes = {64, 80}
+  Sizes = {80, 10064}
 INVARIANTS ChainExact PrefixKept Emit
 CHECK_DEADLOCK FALSE
